@@ -279,6 +279,30 @@ func enumMutants(root *jmut.Node, from, to int, fn func(name string, n *jmut.Nod
 				fn(fmt.Sprintf("%s:rep%d", p.String(), ri), d)
 			}
 		}
+		// references: every other defined value of the kind (a defined regime without
+		// normaliser, an addon of another country, …), not only garbage
+		if orig.K == jmut.Str && len(p) > 0 {
+			var alts []string
+			switch key := p[len(p)-1].Key; {
+			case key == "$regime" || key == "country":
+				alts = c14alts().regimes
+			case key == "currency":
+				alts = []string{"JPY", "KWD", "CLP", "USD", "EUR", "XXX"}
+			case len(p) >= 2 && p[len(p)-2].Key == "$addons":
+				alts = c14alts().addons
+			case len(p) >= 2 && p[len(p)-2].Key == "$tags":
+				alts = []string{"simplified", "reverse-charge", "customer-rates", "self-billed", "partial", "bypass", "export", "b2g"}
+			}
+			for _, a := range alts {
+				if a == orig.S {
+					continue
+				}
+				d := root.Clone()
+				if d.Replace(p, jmut.S(a)) {
+					fn(fmt.Sprintf("%s:defined=%s", p.String(), a), d)
+				}
+			}
+		}
 		switch orig.K {
 		case jmut.Arr:
 			if len(orig.A) > 0 {
@@ -332,6 +356,27 @@ func enumMutants(root *jmut.Node, from, to int, fn func(name string, n *jmut.Nod
 		}
 	}
 	return len(paths)
+}
+
+type c14altSet struct{ regimes, addons []string }
+
+var c14altsOnce sync.Once
+var c14altsVal c14altSet
+
+// c14alts lists the published regime and addon codes.
+func c14alts() c14altSet {
+	c14altsOnce.Do(func() {
+		w := getWorld()
+		for r := range w.defs.Regimes {
+			c14altsVal.regimes = append(c14altsVal.regimes, r)
+		}
+		for a := range w.defs.Addons {
+			c14altsVal.addons = append(c14altsVal.addons, a)
+		}
+		sort.Strings(c14altsVal.regimes)
+		sort.Strings(c14altsVal.addons)
+	})
+	return c14altsVal
 }
 
 func countPositions(root *jmut.Node) int {
@@ -416,6 +461,8 @@ func childC14(args []string) int {
 		rawCases(job.Seed, job.N, func(name string, data []byte) { run(name, data) })
 	case "pair":
 		pairCases(job.File, job.Seed, job.N, func(name string, data []byte) { run(name, data) })
+	case "gen":
+		genCases(job.Seed, job.N, func(name string, data []byte) { run(name, data) })
 	}
 	fmt.Fprintf(prog, "done\n")
 	out := map[string]any{"findings": dedupe(r.findings), "stats": r.stats}
@@ -547,7 +594,7 @@ type c14result struct {
 }
 
 func runC14(c *Ctx) {
-	c.R.Rule("complete, seed-independent single-mutation sweep: every JSON position of every corpus envelope × 17 replacements (delete, null, empty/unknown/garbage strings, huge and empty numbers, retyped to number/bool/array/object, [null], [{}]) plus array null-append/prepend/doubling and duplicated members; seeded classes: raw bytes (empty, prefixes, random, flipped bytes, 10^4-deep nesting, 10 MB strings, invalid UTF-8), pairwise mutations, a sample through the CLI commands and the HTTP/bulk server. Each mutant goes through parse → calculate → validate → digest → sign → verify(key/no key) → correct (5 option sets) → replicate → options schema → extract → marshal, chained and again with every operation on its own fresh parse. non-trivial = the mutant parsed far enough to reach Calculate; distinct by mutant")
+	c.R.Rule("complete, seed-independent single-mutation sweep: every JSON position of every corpus envelope × 17 replacements (delete, null, empty/unknown/garbage strings, huge and empty numbers, retyped to number/bool/array/object, [null], [{}]) plus array null-append/prepend/doubling and duplicated members; seeded classes: raw bytes (empty, prefixes, random, flipped bytes, 10^4-deep nesting, 10 MB strings, invalid UTF-8), pairwise mutations, well-formed generated invoices/orders/deliveries (all grammar profiles) and payments with document tax summaries, CLI option values and bulk protocol lines, cold-start bursts, a sample through the CLI commands and the HTTP/bulk server. Each mutant goes through parse → calculate → validate → digest → sign → verify(key/no key) → correct (5 option sets) → replicate → options schema → extract → marshal, chained and again with every operation on its own fresh parse. non-trivial = the mutant parsed far enough to reach Calculate; distinct by mutant")
 	c.R.Assume("a panic is attributed to the innermost gobl function on the panicking stack; process death and hangs are attributed through a per-case progress log written before each case")
 	items := corpus.Golden()
 	self, _ := os.Executable()
@@ -579,6 +626,10 @@ func runC14(c *Ctx) {
 	rawN := c.N(4000, 400000)
 	for i := 0; i < 16; i++ {
 		jobs = append(jobs, c14job{Kind: "raw", Seed: c.Seed*1000 + int64(i), N: rawN / 16})
+	}
+	genN := c.N(3200, 160000)
+	for i := 0; i < 16; i++ {
+		jobs = append(jobs, c14job{Kind: "gen", Seed: c.Seed*1000 + 500 + int64(i), N: genN / 16})
 	}
 	pairN := c.N(16000, 1600000)
 	for i, it := range items {
@@ -691,6 +742,7 @@ func runC14(c *Ctx) {
 	c.R.Sample(map[string]any{"case": "lines[0]:rep13 (a line replaced by [null]) of examples/es/out/invoice-es-es.json", "operations": "parse, calculate, validate, digest, sign, verify, correct×5, replicate, options-schema, extract, marshal — chained and each on a fresh parse"})
 
 	c14entryPoints(c, items, tmp)
+	c.Require("cases", "reached_calculate_ok", "cli_flag_cases", "bulk_protocol_cases", "cold_start_bursts", "op:correct")
 }
 
 func firstFatal(s string) string {
